@@ -39,7 +39,9 @@ VEvents(s, e) ==
 VFill(s, e) ==
   LET exp == [a \in 1..A0(s) |-> LET x == [t \in 1..T0(s) |-> s.hist[t][a][1]] IN IF e.act = "Prev" THEN FFill(x) ELSE BFill(x)]
       got == [a \in 1..A0(s) |-> [t \in 1..T0(s) |-> e.arr[t][a]]]
-  IN IF got = exp THEN <<"ok", s>> ELSE <<IF e.act = "Prev" THEN "states-prev" ELSE "states-next", s>>
+      shapeOk == Len(e.arr) = T0(s) /\ \A t \in 1..Len(e.arr) : Len(e.arr[t]) = A0(s)
+  IN IF ~shapeOk THEN <<IF e.act = "Prev" THEN "states-prev-shape" ELSE "states-next-shape", s>>
+     ELSE IF got = exp THEN <<"ok", s>> ELSE <<IF e.act = "Prev" THEN "states-prev" ELSE "states-next", s>>
 
 VJumps(s, e) ==
   LET exp == SeqToSet(JumpRowsOfHist(s.hist, e.m))
